@@ -894,14 +894,17 @@ func genScale(g *tr.G) {
 						run(size-3-m, style, 8), it('d', 1, 1, 100002)), "scale-size-3-changes")
 				}
 			}
-			// many changes: one change every 3 (4, 2) lines of Left; 1025 changes from 4095 lines on
+			// many changes: one change every 3 (4, 2, 3) lines of Left; 1025 changes from 4095 lines on
 			if size >= 8 {
-				for v, per := range []int{3, 4, 2} {
+				for v, per := range []int{3, 4, 2, 3} {
 					// a group: per-1 common lines and a dropped one (per lines of Left, one change)
 					grp, lper, cper := groupItems(run(per-1, 0, 7), it('d', 1, 1, 100000)), per, 1
 					if v == 1 { // changes alternate between a dropped and an inserted line
 						grp = groupItems(run(per-1, 0, 7), it('d', 1, 1, 100000), run(per, 0, 17), it('c', 1, 1, 200000))
 						lper, cper = 2*per, 2
+					}
+					if v == 3 { // insertions 3 lines apart: with n = 1 all chunks get context and stay apart
+						grp = groupItems(run(per, 0, 7), it('c', 1, 1, 200000))
 					}
 					reps := min((1025+cper-1)/cper, (size-1)/lper)
 					if reps < 1 {
@@ -960,6 +963,9 @@ func genScale(g *tr.G) {
 				pick[cheap[(size+rot)%len(cheap)]] = true
 				pick[cheap[(size+rot+len(cheap)/2)%len(cheap)]] = true
 				pick[many[(size+rot)%len(many)]] = true
+				if size == 1<<12+1 {
+					pick[many[3]] = true // every run: 1025 chunks that are still 1025 after AddContext(1) and Unify
+				}
 			}
 			for i, v := range vs {
 				if !pick[i] {
@@ -972,7 +978,11 @@ func genScale(g *tr.G) {
 					n = (i + size + rot) % 2
 				}
 				hs := scaleHists(n)
-				s.emit(hs[(i+rot)%len(hs)], v.recipe, v.tag, false)
+				h := hs[(i+rot)%len(hs)]
+				if v.many && size >= 600 && i == many[3] {
+					h = "a1,u" // every chunk gets context, none touches its neighbour
+				}
+				s.emit(h, v.recipe, v.tag, false)
 				if (size < 200 && (i+rot)%2 == 0) || (thorough && (size < 1100 || v.style == 0 || v.style == 4)) {
 					n2 := scaleNs[(i+size+rot+5)%len(scaleNs)]
 					s.emit(scaleHists(n2)[0], v.recipe, v.tag, false)
